@@ -180,7 +180,7 @@ def run(ctx):
     ctx.check(okt, 'R2', 's4u::Actor::join(timeout) hands its timeout to the kernel', where(sjo), '', key='R2|s4u::Actor::join|timeout')
 
     # ---- R3 kill timer ------------------------------------------------------------------------------------------------------------------------
-    ctx.rule('R3', 'the kill-time timer callback calls exit() on the actor and puts it back in the run list', 1)
+    ctx.rule('R3', 'the kill-time timer callback calls exit() on the actor and puts it back in the run list; the timer is armed only for a future date; kill() schedules its victim', 3)
     sk = P.fn(AC + '::set_kill_time')
     v = A.view(sk)
     ok3 = False
@@ -194,6 +194,35 @@ def run(ctx):
                             qs = [x.q for x in lv.path_events(lp) if x.kind == 'call']
                             ok3 = AC + '::exit' in qs and any(q.endswith('add_actor_to_run_list') for q in qs) and qs.index(AC + '::exit') < [i for i, q in enumerate(qs) if q.endswith('add_actor_to_run_list')][0]
     ctx.check(ok3, 'R3', 'set_kill_time callback', where(sk), '', key='R3|set_kill_time|callback')
+    # the timer is armed exactly for a date in the future; a victim killed by another actor is put in the run list (it must run to execute its on_exit callbacks)
+    armed = None
+    for p in v.paths():
+        if p.exit in ('noreturn', 'cut', 'throw'):
+            continue
+        evs = v.path_events(p)
+        ts = [e for e in evs if e.kind == 'call' and e.q.endswith('Timer::set')]
+        past = [e.pol for e in evs if e.kind == 'branch' and e.atom[0] == 'bin' and e.atom[1] in ('<=', '>') and e.atom[2] == lib.parm_i(sk, 0) and e.atom[3][0] == 'call' and e.atom[3][1].endswith('get_clock')]
+        past = [(pl if e_[1] == '<=' else not pl) for pl, e_ in zip(past, [e.atom for e in evs if e.kind == 'branch' and e.atom[0] == 'bin' and e.atom[1] in ('<=', '>') and e.atom[2] == lib.parm_i(sk, 0) and e.atom[3][0] == 'call' and e.atom[3][1].endswith('get_clock')])]
+        good = len(past) == 1 and (len(ts) == 1) == (not past[0]) and (not ts or ts[0].args[0] == lib.parm_i(sk, 0))
+        armed = good if armed is None else (armed and good)
+    ctx.check(bool(armed), 'R3', 'set_kill_time arms a timer at kill_time exactly when kill_time > now', where(sk), '', key='R3|set_kill_time|armed for the future only')
+    kf = P.fn(AC + '::kill')
+    kv = A.view(kf)
+    okk = None
+    victim = lib.parm_i(kf, 0)
+    for p in kv.paths():
+        if p.exit in ('noreturn', 'cut', 'throw'):
+            continue
+        evs = kv.path_events(p)
+        exits = [i for i, e in enumerate(evs) if e.kind == 'call' and e.q == AC + '::exit' and e.obj == victim]
+        if not exits:
+            continue
+        me = [e.pol for e in evs[exits[0]:] if e.kind == 'branch' and e.atom[0] == 'bin' and e.atom[1] == '==' and victim in (e.atom[2], e.atom[3]) and ('this',) in (e.atom[2], e.atom[3])]
+        rl = [e for e in evs[exits[0]:] if e.kind == 'call' and e.q.endswith(('add_actor_to_run_list', 'add_actor_to_run_list_no_check')) and e.args and e.args[0] == victim]
+        good = len(me) == 1 and (len(rl) == 1) == (not me[0])
+        okk = good if okk is None else (okk and good)
+    ctx.check(bool(okk), 'R3', 'kill(): after exit(), a victim other than the caller is put in the run list', where(kf), 'the victim runs once more, to stop in yield() and execute its on_exit callbacks (joiners wait for them)',
+              key='R3|kill|victim scheduled')
 
     # ---- R4 daemons ------------------------------------------------------------------------------------------------------------------------------
     ctx.rule('R4', 'daemons are killed iff actor_list_.size() == daemons_.size(); only daemonize/undaemonize change the daemon set, together with the daemon_ flag', 5)
@@ -325,6 +354,26 @@ def run(ctx):
         flag = [e.rhs for p in v.paths(max_visits=1) for e in v.path_events(p) if e.kind == 'assign' and e.lhs == lib.this_field(AC + '::suspended_')]
         ctx.check(okl and flag and all(x == ('bool', nm == 'suspend') for x in flag), 'R5', 'ActorImpl::%s: sets suspended_ and calls %s() on every activity of activities_' % (nm, nm), where(f), '',
                   key='R5|ActorImpl::%s|all activities' % nm)
+    # resume() puts the actor back in the run list only when it waits for nothing (it was unscheduled by yield()); an actor blocked on an activity is
+    # answered by that activity, not by its resumption
+    rf = P.fn(AC + '::resume')
+    rv = A.view(rf)
+    okr = None
+    WS = lib.this_field(AC + '::waiting_synchros_')
+    for p in rv.paths(max_visits=1):
+        if p.exit in ('noreturn', 'cut', 'throw'):
+            continue
+        evs = rv.path_events(p)
+        rl = [e for e in evs if e.kind == 'call' and e.q.endswith(('add_actor_to_run_list', 'add_actor_to_run_list_no_check'))]
+        emp = [e.pol for e in evs if e.kind == 'branch' and e.atom[0] == 'truthy' and e.atom[1][0] == 'call' and e.atom[1][1].endswith('::empty') and e.atom[1][2] == WS]
+        flag = [e for e in evs if e.kind == 'assign' and e.lhs == lib.this_field(AC + '::suspended_')]
+        if not flag:
+            good = not rl          # nothing resumed: nothing rescheduled
+        else:
+            good = len(emp) == 1 and (len(rl) == 1) == emp[0]
+        okr = good if okr is None else (okr and good)
+    ctx.check(bool(okr), 'R5', 'ActorImpl::resume: the actor is rescheduled iff it waits on no activity', where(rf), 'a resumed actor that is blocked on an activity stays blocked until that activity answers it',
+              key='R5|ActorImpl::resume|reschedule only when not waiting')
     # sibling agreement on the null test of model_action_
     MA = lib.this_field(AI + '::model_action_')
     for cls in sorted(P.subclasses(AI)):
